@@ -27,3 +27,51 @@ Definition unlocked_step (s : astate) (t : nat) : astate :=
 Definition run_unlocked (nthreads : nat) (sched : list nat) : astate := fold_left unlocked_step sched a0.
 
 Definition names_of (s : astate) : list nat := a_names s.
+
+(* ---- the whole life of an attachment (prepare_attachment is a context manager):
+       Reserve t   thread t enters the block: a number is reserved under the lock (as above)
+       Commit t    the innermost open block of thread t ends normally: the LogAttachment event is fired, the report now
+                   references that number
+       Abandon t   the innermost open block of thread t is left by an exception: nothing is fired, and the number is NOT
+                   given back (the counter only grows)
+   [bstep_giveback] is the variant in which an abandoned block decrements the counter ("no hole in the numbering"), to show
+   why it must not. *)
+Inductive aop := Reserve (t : nat) | Commit (t : nat) | Abandon (t : nat).
+
+Record bstate := mkB {
+  b_count : nat;
+  b_open : list (nat * nat);      (* (thread, number) of the open blocks, innermost first *)
+  b_refs : list nat;              (* numbers the report references, in firing order *)
+  b_all : list nat }.             (* every number handed out, in order *)
+Definition b0 : bstate := mkB 0 [] [] [].
+
+Fixpoint take_open (t : nat) (l : list (nat * nat)) : option (nat * list (nat * nat)) :=
+  match l with
+  | [] => None
+  | (k, n) :: r => if Nat.eqb k t then Some (n, r)
+                   else match take_open t r with Some (m, r') => Some (m, (k, n) :: r') | None => None end
+  end.
+
+Definition bstep (s : bstate) (o : aop) : bstate :=
+  match o with
+  | Reserve t => mkB (S (b_count s)) ((t, S (b_count s)) :: b_open s) (b_refs s) (b_all s ++ [S (b_count s)])
+  | Commit t => match take_open t (b_open s) with
+                | Some (n, r) => mkB (b_count s) r (b_refs s ++ [n]) (b_all s)
+                | None => s
+                end
+  | Abandon t => match take_open t (b_open s) with
+                 | Some (n, r) => mkB (b_count s) r (b_refs s) (b_all s)
+                 | None => s
+                 end
+  end.
+Definition brun (ops : list aop) : bstate := fold_left bstep ops b0.
+
+Definition bstep_giveback (s : bstate) (o : aop) : bstate :=
+  match o with
+  | Abandon t => match take_open t (b_open s) with
+                 | Some (n, r) => mkB (pred (b_count s)) r (b_refs s) (b_all s)
+                 | None => s
+                 end
+  | _ => bstep s o
+  end.
+Definition brun_giveback (ops : list aop) : bstate := fold_left bstep_giveback ops b0.
